@@ -27,9 +27,9 @@ Parts(c) == CASE c[1] \in {"pose", "vertex"} -> {"pose"}
 Structural(c) == CASE c[1] = "pose" -> {"kind"}
                    [] c[1] = "vertex" -> {"id", "kind"}
                    [] c[1] = "odo" -> {"vid", "swapvids", "estkind", "infoshape", "class"}
-                   [] c[1] = "custom" -> {"vid", "swapvids", "infoshape", "class", "esttype"}
+                   [] c[1] = "custom" -> {"vid", "swapvids", "shortvids", "infoshape", "class", "esttype"}
                    [] c[1] = "lm" -> {"vid", "swapvids", "estkind", "infoshape", "class", "offkind", "offid", "offidnone"}
-                   [] c[1] = "graph" -> {"dropedge", "dropvertex", "addvertex", "swapvertices", "swapedges", "vid", "vkind", "eclass"}
+                   [] c[1] = "graph" -> {"dropedge", "dropvertex", "addvertex", "swapvertices", "movelandmark", "swapedges", "vid", "vkind", "eclass"}
 Exponents == {-12, -9, -6, -3, 3, 4, 6} \cup {-1, 0, 1}      \* the last three lie in the band
 Tols == {"1e-9", "1e-6", "1e-3"}
 Positions == {"first", "mid", "last"}                     \* which component of the part is perturbed
